@@ -30,7 +30,7 @@ ASSUME = ['TLC results are exhaustive only within the stated constants',
           'tpc_begin with a status: not a destination)',
           'transaction, persistent, zodbpickle, BTrees trusted as installed']
 
-COPY_INVARIANTS = ['CopyFaithful', 'CopyKeepsKinds', 'CopyRestoresDefined']
+COPY_INVARIANTS = ['CopyFaithful', 'CopyKeepsKinds', 'CopyRestoresDefined', 'RangeCopyFaithful']
 
 
 def tlc_run(*a, **kw):
@@ -50,12 +50,20 @@ def tlc_run(*a, **kw):
 # ----------------------------------------------------------------------------------------------------
 # (a) copy
 
-def copy_mc(ctx, name, c, next_, timeout=900):
-    """-> TLCResult (counted by the caller: this runs in a helper thread)"""
+def copy_consts(c, hint=False, noblob=False):
+    return dict(sd.tla_consts(c), HintRaises='TRUE' if hint else 'FALSE', IterNoLoadBlob='TRUE' if noblob else 'FALSE')
+
+
+def copy_mc(ctx, name, c, next_, timeout=900, hint=False, noblob=False):
+    """-> TLCResult (counted by the caller: this runs in a helper thread).  With a deviation constant set to the
+    behaviour of the code TLC has to exhibit a history and a start whose range cannot be copied."""
     cfg = os.path.join(ctx.scratch, name + '.cfg')
-    tlc.write_cfg(cfg, constants=sd.tla_consts(c), next_=next_, invariants=COPY_INVARIANTS + ['TidsStrictlyIncrease'], view='View')
+    tlc.write_cfg(cfg, constants=copy_consts(c, hint, noblob), next_=next_, invariants=COPY_INVARIANTS + ['TidsStrictlyIncrease'], view='View')
     r = tlc_run('MCZRecoverCopy', cfg, workers=6, timeout=timeout)
-    if not r.ok:
+    if hint or noblob:
+        if r.violation != 'RangeCopyFaithful' or not r.trace:
+            raise tlc.TLCError('MCZRecoverCopy/%s: expected a counterexample to RangeCopyFaithful, got %s\n%s' % (name, r.violation, r.output[-2000:]))
+    elif not r.ok:
         raise tlc.TLCError('MCZRecoverCopy/%s: unexpected violation of %s\n%s' % (name, r.violation, r.output[-3000:]))
     return r
 
@@ -65,7 +73,7 @@ def copy_simulate(ctx, name, c, num, depth, seed, next_):
     wd = os.path.join(ctx.scratch, 'sim-' + name)
     os.makedirs(wd, exist_ok=True)
     cfg = os.path.join(wd, name + '.cfg')
-    tlc.write_cfg(cfg, constants=sd.tla_consts(c), next_=next_, invariants=COPY_INVARIANTS)
+    tlc.write_cfg(cfg, constants=copy_consts(c), next_=next_, invariants=COPY_INVARIANTS)
     outdir = os.path.join(wd, 'out')
     os.makedirs(outdir, exist_ok=True)
     r = tlc_run('MCZRecoverCopy', cfg, workdir=wd, simulate='file=%s/tr,num=%d' % (outdir, num), depth=depth,
@@ -81,6 +89,8 @@ def copy_jobs(ctx, behs, kind, c, tag, opts=None):
         o = dict(opts or {})
         o.setdefault('pad', (0, 3000, 9000)[(i + ctx.seed) % 3])
         o.setdefault('ranges', (i + ctx.seed) % 5 == 0)
+        o.setdefault('range_copy', kind == 'file' and (i + ctx.seed) % 3 == 1)
+        o.setdefault('range_blob_dest', (i + ctx.seed) % 2 == 0)
         jobs.append((b, kind, c, os.path.join(ctx.scratch, 'cp-%s-%d' % (tag, i)), o))
     return jobs
 
@@ -129,6 +139,97 @@ def judge_copy(ctx, results, tag, cov):
             ctx.violation(sig, '[%s] copy (%s) differs from the source history: %s (behaviour %s)' % (
                 tag, m['variant'], '; '.join(m['detail']), ' '.join(r['sig'][:60])),
                 replay={'part': 'copy', 'tag': tag, 'variant': m['variant'], 'prefix': r['sig']})
+
+
+def _range_diff(exp, got):
+    """expected {start: (outcome, iterator view)} against the real range copies -> [(start, text)]"""
+    out = []
+    for r in got:
+        want = exp[r['a']]
+        if r['out'] != want[0]:
+            out.append((r['a'], 'start %d: spec outcome %s, implementation %s%s' % (r['a'], want[0], r['out'], (' at ' + r['at']) if r['at'] else '')))
+            continue
+        if r['out'] == 'ok':
+            d = []
+            sd.diff('iter', want[1], r['iter'], d)
+            if d or r['blobs']:
+                out.append((r['a'], 'start %d: %s' % (r['a'], '; '.join((d + r['blobs'])[:3]))))
+    return out
+
+
+def judge_ranges(ctx, by, cov):
+    """dst.copyTransactionsFrom(src.iterator(start)) for every start, judged against what TLC (ZRecoverRange) evaluates.
+    1. the two counterexamples TLC produced with a deviation constant set decide which model is the model of this
+       tree (and are reported if the code shows the deviation); 2. every other range copy must conform to it."""
+    cx = {}
+    for name in ('cx:range-hint', 'cx:range-blob'):
+        r = by[name][0]
+        if r['source_failed'] or 'ranges' not in r:
+            raise RuntimeError('the counterexample %s could not be replayed: %r' % (name, r['source_failed']))
+        cx[name] = r
+    rc = cov['range'] = {'copies': 0, 'histories': 0, 'raised_hint': 0, 'raised_blob': 0, 'with_back_before_start': 0}
+    # -- 1. choose HintRaises
+    h = cx['cx:range-hint']
+    t, (e_code, e_design) = rv.evaluate_ranges(ctx.scratch, 'cx-hint', [(h['hist'], h['blob_oids'], True, False), (h['hist'], h['blob_oids'], False, False)], tlc_run)
+    ctx.add_tlc('range-eval-cx-hint', t)
+    hint = False
+    if not _range_diff(e_code, h['ranges']) and _range_diff(e_design, h['ranges']):
+        hint = True
+        bad = [r for r in h['ranges'] if r['out'] != 'ok']
+        ctx.violation({'part': 'copy', 'what': 'range-copy-raised', 'exc': bad[0]['out'], 'hint_before_start': True},
+                      'dst.copyTransactionsFrom(src.iterator(start)) raises %s (%s, in %s) when a record of the range is a back-pointer to a '
+                      'transaction before start: TLC counterexample of RangeCopyFaithful (HintRaises) confirmed on the real storages; '
+                      'starts %s of the history %s' % (bad[0]['out'], bad[0].get('msg', ''), bad[0]['at'], [r['a'] for r in bad], ' '.join(h['sig'])),
+                      replay={'part': 'copy', 'prefix': h['sig'], 'starts': [r['a'] for r in bad]})
+    elif _range_diff(e_design, h['ranges']):
+        d = _range_diff(e_design, h['ranges'])
+        ctx.violation({'part': 'copy', 'what': 'range-copy', 'where': 'counterexample-hint'},
+                      'range copy of TLC\'s counterexample is neither the documented nor the known behaviour: %s (history %s)' % (
+                          '; '.join(x[1] for x in d[:3]), ' '.join(h['sig'])), replay={'part': 'copy', 'prefix': h['sig']})
+    # -- choose IterNoLoadBlob
+    b = cx['cx:range-blob']
+    t, (e_code, e_design) = rv.evaluate_ranges(ctx.scratch, 'cx-blob', [(b['hist'], b['blob_oids'], hint, True), (b['hist'], b['blob_oids'], hint, False)], tlc_run)
+    ctx.add_tlc('range-eval-cx-blob', t)
+    noblob = False
+    if not _range_diff(e_code, b['ranges']) and _range_diff(e_design, b['ranges']):
+        noblob = True
+        bad = [r for r in b['ranges'] if r['out'] != 'ok']
+        ctx.violation({'part': 'copy', 'what': 'range-copy-raised', 'exc': bad[0]['out'], 'blob_in_range': True},
+                      'blob-enabled dst.copyTransactionsFrom(src.iterator(start)) raises %s (%s, in %s) when the range holds a blob record: '
+                      'TLC counterexample of RangeCopyFaithful (IterNoLoadBlob) confirmed on the real storages; starts %s of the history %s' % (
+                          bad[0]['out'], bad[0].get('msg', ''), bad[0]['at'], [r['a'] for r in bad], ' '.join(b['sig'])),
+                      replay={'part': 'copy', 'prefix': b['sig'], 'starts': [r['a'] for r in bad], 'blobs': True})
+    elif _range_diff(e_design, b['ranges']):
+        d = _range_diff(e_design, b['ranges'])
+        ctx.violation({'part': 'copy', 'what': 'range-copy', 'where': 'counterexample-blob'},
+                      'range copy of TLC\'s blob counterexample is neither the documented nor the known behaviour: %s (history %s)' % (
+                          '; '.join(x[1] for x in d[:3]), ' '.join(b['sig'])), replay={'part': 'copy', 'prefix': b['sig'], 'blobs': True})
+    rc['model'] = {'HintRaises': hint, 'IterNoLoadBlob': noblob}
+    # -- 2. every range copy of every selected behaviour against the model of this tree
+    sel = [(t, r) for t, rs in by.items() if not t.startswith('cx:') for r in rs if r.get('ranges')]
+    if not sel:
+        raise RuntimeError('vacuous: no range copies')
+    cases = [(r['hist'], r['blob_oids'], hint, noblob and r['blob_dest']) for t, r in sel]
+    t, exps = rv.evaluate_ranges(ctx.scratch, 'all', cases, tlc_run)
+    ctx.add_tlc('range-eval', t)
+    for (tag, r), exp in zip(sel, exps):
+        rc['histories'] += 1
+        rc['copies'] += len(r['ranges'])
+        rc['raised_hint'] += sum(1 for x in r['ranges'] if x['out'] == 'UndoError')
+        rc['raised_blob'] += sum(1 for x in r['ranges'] if x['out'] == 'AttributeError')
+        rc['with_back_before_start'] += any(rec['op'] == 'back' for tx in r['hist'][1:] for rec in tx['recs'])
+        d = _range_diff(exp, r['ranges'])
+        if d:
+            want = exp[d[0][0]][0]
+            got = next(x['out'] for x in r['ranges'] if x['a'] == d[0][0])
+            sig = {'part': 'copy', 'what': 'range-copy', 'spec': want, 'impl': got}
+            if want == got:
+                sig['where'] = where_of(d[0][1].split(': ', 1)[1])
+            ctx.violation(sig, '[%s] copy of the range src.iterator(start) differs from what ZRecover!CopyRange yields (HintRaises=%s, IterNoLoadBlob=%s): '
+                          '%s (behaviour %s)' % (tag, hint, noblob and r['blob_dest'], '; '.join(x[1] for x in d[:3]), ' '.join(r['sig'][:60])),
+                          replay={'part': 'copy', 'tag': tag, 'prefix': r['sig'], 'starts': [x[0] for x in d]})
+    if not rc['with_back_before_start']:
+        raise RuntimeError('vacuous: no range copy of a history with back-pointer records')
 
 
 def copy_scripts(rng, n, noid=3):
@@ -181,6 +282,8 @@ def copy_tlc_jobs(ctx):
     mc = dict(NOid=2, MaxClock=2, Cls='MCClsPlain')
     jobs = [('mc:copy-pack-2x2', lambda: copy_mc(ctx, 'copy-pack-2x2', sd.consts('file', MaxTxn=2, MaxRecs=2, AtomVals=('v1',), **mc), 'NextWithPack')),
             ('mc:copy-undo-3x1', lambda: copy_mc(ctx, 'copy-undo-3x1', sd.consts('file', MaxTxn=3, MaxRecs=1, AtomVals=('v1', 'v2'), **mc), 'NextUndo'))]
+    jobs += [('cx:range-hint', lambda: copy_mc(ctx, 'range-hint-as-code', sd.consts('file', MaxTxn=3, MaxRecs=1, AtomVals=('v1', 'v2'), **mc), 'NextUndo', hint=True)),
+             ('cx:range-blob', lambda: copy_mc(ctx, 'range-blob-as-code', sd.consts('file', MaxTxn=3, MaxRecs=1, AtomVals=('v1', 'v2'), **mc), 'NextUndo', noblob=True))]
     if not q:
         jobs += [('mc:copy-pack-3x1', lambda: copy_mc(ctx, 'copy-pack-3x1', sd.consts('file', MaxTxn=3, MaxRecs=1, AtomVals=('v1',), **mc), 'NextWithPack', timeout=1800)),
                  ('mc:copy-undo-4x1', lambda: copy_mc(ctx, 'copy-undo-4x1', sd.consts('file', MaxTxn=4, MaxRecs=1, AtomVals=('v1', 'v2'), **mc), 'NextUndo', timeout=1800))]
@@ -225,12 +328,20 @@ def part_copy(ctx, done, replay=True):
     jobs += copy_jobs(ctx, behs[:half], 'file', cs, 'scripts')
     jobs += copy_jobs(ctx, behs[half:], 'file', cs, 'scripts-blobs', {'blobs': True, 'variants': ('ctf',)})
     tags += ['scripts'] * half + ['scripts-blobs'] * (len(behs) - half)
+    # TLC's counterexamples to RangeCopyFaithful (deviation constants set) are replayed like any behaviour
+    cxc = sd.consts('file', MaxTxn=3, MaxRecs=1, AtomVals=('v1', 'v2'), NOid=2, MaxClock=2, Cls='MCClsPlain')
+    for name, o in (('cx:range-hint', {}), ('cx:range-blob', {'blobs': True})):
+        ctx.add_tlc(name[3:] + '-as-code', done[name])
+        steps = [{'action': st['action'], 'args': st['args'], 'state': st['state']} for st in done[name].trace]
+        jobs.append((steps, 'file', cxc, os.path.join(ctx.scratch, 'cp-' + name[3:]), dict(o, variants=('ctf',), range_copy=True, pad=0)))
+        tags.append(name)
     results = par.pmap(rv.copy_behaviour, jobs, chunksize=2)
     by = {}
     for t, r in zip(tags, results):
         by.setdefault(t, []).append(r)
     for t, rs in by.items():
         judge_copy(ctx, rs, t, cov)
+    judge_ranges(ctx, by, cov)
     cov.pop('_seen')
     cov['sample'] = results[1]['sig'][:30] if len(results) > 1 else []
     for need in ('with_back', 'with_zero', 'with_packed', 'with_blobrecs'):
@@ -352,17 +463,25 @@ TOOL_REAL = {'MAGIC': 4, 'FH': 23, 'LENOFF': 8, 'LENSZ': 8, 'TR': 8}
 TOOL_INV = ['TTypeOK', 'OutputOK', 'PrefixOK', 'IdenticalOK']
 
 
-def tool_mc(ctx):
-    cfg = os.path.join(ctx.scratch, 'tool-mc.cfg')
-    tlc.write_cfg(cfg, constants={'Files': '<- MCFiles', 'MAGIC': 1, 'FH': 3, 'LENOFF': 1, 'LENSZ': 1, 'TR': 1}, spec='TSpec',
+def tool_mc(ctx, emits_cut=False):
+    """the tool loop against the three clauses; with EmitsCut (the code as it is) TLC has to exhibit an output
+    transaction that lacks records of the input transaction"""
+    name = 'tool-mc' + ('-as-code' if emits_cut else '')
+    cfg = os.path.join(ctx.scratch, name + '.cfg')
+    tlc.write_cfg(cfg, constants={'Files': '<- MCFiles', 'MAGIC': 1, 'FH': 3, 'LENOFF': 1, 'LENSZ': 1, 'TR': 1,
+                                  'EmitsCut': 'TRUE' if emits_cut else 'FALSE'}, spec='TSpec',
                   invariants=TOOL_INV, properties=['Terminates'])
-    r = rv.run_tlc('MCZRecoverTool', cfg, os.path.join(ctx.scratch, 'tool-mc'), workers=4, timeout=900)
-    if not r.ok:
+    r = rv.run_tlc('MCZRecoverTool', cfg, os.path.join(ctx.scratch, name), workers=4, timeout=900)
+    if emits_cut:
+        last = rv.norm(r.trace[-1]['state']) if r.trace else {}
+        if r.violation != 'OutputOK' or not any(not o['whole'] for o in last.get('out', ())):
+            raise tlc.TLCError('ZRecoverTool (EmitsCut): expected a counterexample to OutputOK with a cut transaction, got %s\n%s' % (r.violation, r.output[-2000:]))
+    elif not r.ok:
         raise tlc.TLCError('ZRecoverTool: %s\n%s' % (r.violation, r.output[-3000:]))
     return r
 
 
-def validate_runs(ctx, name, files, runs):
+def validate_runs(ctx, name, files, runs, emits_cut):
     """one TLC run of ZRecoverTrace over a batch of recorded runs -> {run number: (verdict, at, why)}"""
     import json
     wd = os.path.join(ctx.scratch, 'trace-' + name)
@@ -371,7 +490,7 @@ def validate_runs(ctx, name, files, runs):
     with open(tf, 'w') as f:
         json.dump({'files': files, 'runs': runs}, f)
     cfg = os.path.join(wd, 'trace.cfg')
-    tlc.write_cfg(cfg, constants=dict(TOOL_REAL, Files='{}'), init='TrInit', next_='TrNext')
+    tlc.write_cfg(cfg, constants=dict(TOOL_REAL, Files='{}', EmitsCut='TRUE' if emits_cut else 'FALSE'), init='TrInit', next_='TrNext')
     r = tlc_run('ZRecoverTrace', cfg, workdir=wd, workers=2, timeout=1500, env={'TRACE_FILE': tf})
     if not r.ok:
         raise tlc.TLCError('trace validation %s: %s\n%s' % (name, r.violation, r.output[-3000:]))
@@ -389,7 +508,7 @@ def dmg_text(d):
     return 'undamaged' if d[0] == 'none' else 'truncated at %d' % d[1] if d[0] == 'cut' else 'bytes [%d, %d) overwritten with %s' % (d[1], d[2], d[3])
 
 
-def part_recover(ctx, sim_files, consts_of):
+def part_recover(ctx, sim_files, consts_of, cut_cx):
     q = ctx.quick
     rng = random.Random(ctx.seed * 104729 + 5)
     # 1. data files from TLC histories (undo records, un-creations, packed prefixes; some spread over several read chunks)
@@ -405,7 +524,7 @@ def part_recover(ctx, sim_files, consts_of):
         jobs.append((f, consts_of[tag], os.path.join(ctx.scratch, 'src-%d' % i), {'pad': (0, 0, 3000, 9000)[i % 4], 'min_txns': 3}))
     built = [b for b in par.pmap(rv.build_source, jobs, chunksize=2) if b is not None and 'failed' not in b]
     # variety first: undo back-pointers, un-creations, packed prefixes, files longer than one read chunk, short files
-    feats = (lambda b: b['backs'] > 0, lambda b: b['packed'] > 0, lambda b: len(b['data']) > 9000, lambda b: b['zeros'] > 0,
+    feats = (lambda b: b['backs'] > 0 and b['multi'] > 0, lambda b: b['packed'] > 0, lambda b: len(b['data']) > 9000 and b['multi'] > 0, lambda b: b['zeros'] > 0,
              lambda b: len(b['data']) <= 2500 and b['ntx'] >= 4, lambda b: b['backs'] > 1 and len(b['data']) > 9000)
     built.sort(key=lambda b: -b['ntx'])
     sources = []
@@ -417,7 +536,7 @@ def part_recover(ctx, sim_files, consts_of):
     if len(sources) < min(want, 3):
         raise RuntimeError('only %d usable source files' % len(sources))
     # 2. damages, enumerated relative to the item boundaries of each file
-    jobs, files = [], []
+    jobs, files, directed = [], [], []
     total = every_n = 0
     for i, b in enumerate(sources):
         txns = rv.parse_fs(b['data'])
@@ -425,20 +544,36 @@ def part_recover(ctx, sim_files, consts_of):
         every = (not q) and len(b['data']) <= 2500 and every_n < 4
         every_n += every
         dm = rv.enumerate_damages(txns, len(b['data']), every, rng, budget=700 if q else 6000)
+        # the concretisation of TLC's counterexample (ZRecoverTool with EmitsCut: a transaction whose record bytes are damaged
+        # comes out without some of its records): the transaction pointer in the header of a second / of a first data record
+        for t in txns:
+            if len(t['recs']) >= 2:
+                directed += [(i, ('fill', t['recs'][1]['pos'] + 24, t['recs'][1]['pos'] + 32, 'ff')), (i, ('fill', t['recs'][0]['pos'] + 24, t['recs'][0]['pos'] + 32, 'ff'))]
+                dm = [dm[0]] + [d[1] for d in directed[-2:]] + [d for d in dm[1:] if d not in (directed[-1][1], directed[-2][1])]
+                break
         total += len(dm)
         model = (b['obs'], b['hist'], b['consts'])
         for j, ch in enumerate(par.chunks(dm, max(1, len(dm) // 40))):
             jobs.append((i, b['data'], ch, os.path.join(ctx.scratch, 'rec-%d-%d' % (i, j)), ctx.seed, model))
     results = [r for rs in par.pmap(rv.recover_cases, jobs) for r in rs]
+    if not directed:
+        raise RuntimeError('vacuous: no source file holds a transaction with two records')
+    # the model of this tree: does the real recover() show the deviation TLC exhibited with EmitsCut?
+    dres = [r for r in results if (r['run']['f'] - 1, tuple(r['dmg'])) in {(i, tuple(d)) for i, d in directed}]
+    if len(dres) != len(directed):
+        raise RuntimeError('%d of %d directed runs found' % (len(dres), len(directed)))
+    emits_cut = any(r['cut'] for r in dres)
     # 3. TLC validates every recorded run against ZRecoverTool and judges its output
     cov = {'files': len(sources), 'runs': len(results), 'hangs': 0, 'crashes': 0, 'altered_outputs': 0, 'with_scan': 0, 'accepted': 0,
            'file_sizes': [len(b['data']) for b in sources], 'file_txns': [b['ntx'] for b in sources],
            'files_with_backpointers': sum(1 for b in sources if b['backs']), 'files_packed': sum(1 for b in sources if b['packed']),
            'files_with_uncreation': sum(1 for b in sources if b['zeros']),
-           'by_kind': {}, 'events': {}, 'every_byte_files': every_n}
+           'by_kind': {}, 'events': {}, 'every_byte_files': every_n, 'cut_outputs': 0, 'aborts_for_missing_hint': 0,
+           'model': {'EmitsCut': emits_cut}, 'directed_runs': len(dres),
+           'tlc_counterexample_cut': [str(o) for o in rv.norm(cut_cx.trace[-1]['state'])['out']]}
     batches = par.chunks(list(range(len(results))), max(1, len(results) // 20000 + 1))
     for bi, idx in enumerate(batches):
-        r, verdicts = validate_runs(ctx, 'b%d' % bi, files, [results[i]['run'] for i in idx])
+        r, verdicts = validate_runs(ctx, 'b%d' % bi, files, [results[i]['run'] for i in idx], emits_cut)
         ctx.add_tlc('recover-trace-validation-%d' % bi, r)
         for n, i in enumerate(idx):
             res = results[i]
@@ -448,9 +583,11 @@ def part_recover(ctx, sim_files, consts_of):
             cov['hangs'] += res['how'] == 'hang'
             cov['crashes'] += res['how'].startswith('crash')
             cov['altered_outputs'] += res['altered'] > 0
+            cov['cut_outputs'] += res['cut'] > 0
+            cov['aborts_for_missing_hint'] += res['hint_aborts']
             cov['with_scan'] += res['scans'] > 0
             for e in res['run']['ev']:
-                kk = 'hdr-' + e['r'] if e['k'] == 'hdr' else ('copy-same' if e['same'] else 'copy-altered') if e['k'] == 'copy' else e['k']
+                kk = 'hdr-' + e['r'] if e['k'] == 'hdr' else ('copy-same' if e['same'] else 'copy-altered' if e['whole'] else 'copy-cut') if e['k'] == 'copy' else e['k']
                 cov['events'][kk] = cov['events'].get(kk, 0) + 1
             if res['table']:
                 ctx.violation({'tool': 'fsrecover', 'what': 'undamaged-recovery-differs', 'where': where_of(res['table'][0])},
@@ -462,6 +599,8 @@ def part_recover(ctx, sim_files, consts_of):
                 continue
             if why in ('hang', 'scan-hang'):
                 sig = {'tool': 'fsrecover', 'what': 'hang', 'dot_in_last_8': bool(res['dot8'])}
+            elif why in ('copy-cut', 'transaction-emitted-without-all-its-records'):
+                sig = {'tool': 'fsrecover', 'what': 'transaction-emitted-without-all-its-records'}
             else:
                 sig = {'tool': 'fsrecover', 'what': why, 'damage': 'none' if res['dmg'][0] == 'none' else 'truncation' if res['dmg'][0] == 'cut' else 'bytes'}
             ev = res['run']['ev']
@@ -488,7 +627,7 @@ def _ev_text(e):
     if e['k'] == 'scan':
         return 'scan@%d->%d' % (e['p'], e['q'])
     if e['k'] == 'copy':
-        return 'copy(%s)' % ('same' if e['same'] else 'altered')
+        return 'copy(%s)' % ('same' if e['same'] else 'altered' if e.get('whole') else 'cut: records missing')
     return e['k']
 
 
@@ -499,7 +638,7 @@ def run(ctx):
     # the replay workers are forked)
     import time
     t0 = time.time()
-    jobs = copy_tlc_jobs(ctx) + [('tool-mc', lambda: tool_mc(ctx)), ('scripts', lambda: eval_scripts(ctx))]
+    jobs = copy_tlc_jobs(ctx) + [('tool-mc', lambda: tool_mc(ctx)), ('tool-mc-cut', lambda: tool_mc(ctx, True)), ('scripts', lambda: eval_scripts(ctx))]
     for name, c in scan_configs(ctx.quick):
         for ac, graph in ((False, False), (True, False), (True, True)):
             jobs.append((('scan', name, ac, graph), (lambda name=name, c=c, ac=ac, graph=graph: (c, scan_tlc(ctx, name, c, ac, graph)))))
@@ -507,6 +646,7 @@ def run(ctx):
         futs = [(name, ex.submit(fn)) for name, fn in jobs]
         done = {name: f.result() for name, f in futs}
     ctx.add_tlc('recover-tool-loop', done['tool-mc'])
+    ctx.add_tlc('recover-tool-loop-as-code', done['tool-mc-cut'])
     wall = {'tlc_phase': round(time.time() - t0, 1)}
     parts = os.environ.get('ZV_C17_PARTS', 'abc')          # developer knob: run only some parts (never a verdict: exit 2)
     t1 = time.time()
@@ -516,7 +656,7 @@ def run(ctx):
     cov_c = part_scan(ctx, {k[1:]: v for k, v in done.items() if isinstance(k, tuple)}) if 'c' in parts else None
     wall['scan'] = round(time.time() - t1, 1)
     t1 = time.time()
-    cov_b = part_recover(ctx, sims, consts_of) if 'b' in parts else None
+    cov_b = part_recover(ctx, sims, consts_of, done['tool-mc-cut']) if 'b' in parts else None
     wall['recover'] = round(time.time() - t1, 1)
     if parts != 'abc':
         ctx.finish({'evaluations': 0, 'samples': ['partial run'], 'states': 1, 'transitions': 1, 'traces_validated_against_impl': 0,
